@@ -332,9 +332,71 @@ pub fn gen_bushy_value(g: &mut Gen) -> Item {
     }
 }
 
+/// An opaque value that is itself a well-formed structure of one of the crate's types (a COSE_Key,
+/// a header map, a claims set, a message, a key set), its map entries possibly in another order than
+/// the crate's encoders emit, bare or in the wrappers the registered-but-uninterpreted parameters
+/// give it (`cnf` = {1: COSE_Key} / {2: Encrypted_COSE_Key} / {3: kid}).  Opaque means opaque:
+/// nothing in it is for the crate to interpret, normalise or police.
+pub fn gen_foreign_structure(g: &mut Gen) -> Item {
+    let mut none = Faults::none();
+    let mut v = match g.below(6) {
+        0 | 1 => gen_key(g, &mut none),
+        2 => gen_header(g, &mut none, 1),
+        3 => gen_claims(g, &mut none),
+        4 => {
+            let k = *g.pick(&crate::model::KINDS);
+            gen_msg(g, k, &mut none, 1)
+        }
+        _ => gen_keyset(g, &mut none),
+    };
+    fn shuffle(g: &mut Gen, i: &mut Item) {
+        match i {
+            Item::Map(m) => {
+                match g.below(3) {
+                    0 => {}
+                    1 => m.reverse(),
+                    _ => {
+                        let p = g.permutation(m.len());
+                        *m = p.into_iter().map(|k| m[k].clone()).collect();
+                    }
+                }
+                for (_, x) in m.iter_mut() {
+                    shuffle(g, x);
+                }
+            }
+            Item::Array(a) => a.iter_mut().for_each(|x| shuffle(g, x)),
+            _ => {}
+        }
+    }
+    shuffle(g, &mut v);
+    // (inside an opaque value a protected slot is just a byte string)
+    fn flatten(i: &mut Item) {
+        match i {
+            Item::Wrapped(w) => *i = Item::Bytes(w.content()),
+            Item::Map(m) => m.iter_mut().for_each(|(k, x)| {
+                flatten(k);
+                flatten(x)
+            }),
+            Item::Array(a) => a.iter_mut().for_each(flatten),
+            Item::Tag(_, x) => flatten(x),
+            _ => {}
+        }
+    }
+    flatten(&mut v);
+    match g.below(4) {
+        0 => v,
+        1 => Item::Map(vec![(Item::Int(1), v)]),
+        2 => Item::Map(vec![(Item::Int(g.range_i64(1, 3) as i128), v)]),
+        _ => Item::Array(vec![v]),
+    }
+}
+
 pub fn gen_param_value(g: &mut Gen) -> Item {
     if g.ratio(1, 60) {
         return gen_deep_value(g);
+    }
+    if g.ratio(1, 30) {
+        return gen_foreign_structure(g);
     }
     match g.weighted(&[6, 1, 1, 1]) {
         0 => gen_value(g, 2, true),
@@ -1148,7 +1210,27 @@ pub fn gen_claims(g: &mut Gen, f: &mut Faults) -> Item {
         if entries.iter().any(|(k, _)| k == &l) {
             continue;
         }
-        entries.push((l, gen_value(g, 2, true)));
+        // the confirmation claim carries a key, an encrypted key or a key id; other claims anything
+        let v = if l == Item::Int(8) && g.bool() {
+            let mut none = Faults::none();
+            match g.below(4) {
+                0 => Item::Map(vec![(Item::Int(3), Item::Bytes(g.small_bytes()))]),
+                1 => Item::Map(vec![(Item::Int(2), Item::Array(vec![Item::Bytes(vec![0xa1, 0x01, 0x01]), Item::Map(vec![(Item::Int(5), Item::Bytes(g.nonempty_bytes()))]), Item::Bytes(g.small_bytes())]))]),
+                _ => {
+                    let mut k = gen_key(g, &mut none);
+                    if let Item::Map(m) = &mut k {
+                        let p = g.permutation(m.len());
+                        *m = p.into_iter().map(|i| m[i].clone()).collect();
+                    }
+                    Item::Map(vec![(Item::Int(1), k)])
+                }
+            }
+        } else if g.ratio(1, 12) {
+            gen_param_value(g)
+        } else {
+            gen_value(g, 2, true)
+        };
+        entries.push((l, v));
     }
     if !entries.is_empty() && (f.take(g, "duplicate-label") || (many && f.take_odds(g, "duplicate-label", 2))) {
         let src = g.below(entries.len());
